@@ -15,6 +15,7 @@ func init() {
 }
 
 func checkC04(c *Ctx, r *Report) {
+	defer checkScopesNeverNil(c, r, "C04.c")
 	defer checkProcessWideState(c, r, "C04.b")
 	w := c.W
 	r.NotDecided = append(r.NotDecided, "meaning of scope strings; ordering inside one AND-list (a JSON object in 3.0)", "the router side of the equation is decided in C03 (gate iterates RouteMetadata.Security)")
@@ -755,4 +756,67 @@ func checkSchemeMembership(c *Ctx, r *Report, clause string) {
 		r.add(clause, "guardedby", fi.Key+":membership", "a scheme name is 'declared' only if some configured scheme has exactly that SecurityName", []string{fi.Key}, sites, viol)
 	}
 
+}
+
+// checkScopesNeverNil: the scope list of a security requirement is a list, possibly empty,
+// never nil: the 3.0 emitter marshals a nil slice as `null` where the document needs `[]`
+// (the routers spell the same list `[]string{}`), and a nil list that comes from a loaded
+// pointer is only handed on when it was seen to be non-empty.
+func checkScopesNeverNil(c *Ctx, r *Report, clause string) {
+	w := c.W
+	fi := need(c, r, clause, "core/metadata.GetSecurityFromContext")
+	if fi == nil {
+		return
+	}
+	viol := ""
+	var sites []string
+	allInstrs(fi.SSA, true, func(_ *ssa.Function, b *ssa.BasicBlock, _ int, ins ssa.Instruction) {
+		st, ok := ins.(*ssa.Store)
+		if !ok {
+			return
+		}
+		fa, ok := st.Addr.(*ssa.FieldAddr)
+		if !ok {
+			return
+		}
+		fv := structFieldVar(fa.X.Type(), fa.Field)
+		if fv == nil || fv.Name() != "Scopes" {
+			return
+		}
+		sites = append(sites, w.pos(st.Pos()))
+		for _, ov := range w.originValues(st.Val) {
+			switch x := ov.(type) {
+			case *ssa.Const:
+				if x.IsNil() {
+					viol = fmt.Sprintf("%s: the Scopes of a security requirement can be nil (a `var scopes []string` default): the 3.0 document then says `\"scheme\": null` while the routers and the 3.1 document say an empty list", w.pos(st.Pos()))
+				}
+			case *ssa.UnOp:
+				// *definedScopes: only under a length test (a decoded empty list may be nil)
+				guarded := false
+				for _, f := range dominatingFactsOfValue(x, b) {
+					cnd, pol := unwrapNot(f.Cond, f.Pol)
+					if bo, ok := cnd.(*ssa.BinOp); ok && pol && (bo.Op == token.GTR || bo.Op == token.NEQ) && sliceOf(cnd).Calls["builtin.len"] {
+						guarded = true
+					}
+				}
+				if !guarded {
+					viol = fmt.Sprintf("%s: the Scopes of a security requirement are taken from the decoded property without a length test: an empty decoded list may be nil, which the 3.0 document renders as `null`", w.pos(st.Pos()))
+				}
+			}
+		}
+	})
+	if len(sites) == 0 {
+		viol = "no store into SecurityAnnotationComponent.Scopes found in GetSecurityFromContext"
+		sites = []string{w.pos(fi.Decl.Pos())}
+	}
+	r.add(clause, "fieldflow", "core/metadata.GetSecurityFromContext:scopes-never-nil", "a security requirement's scope list is never nil", []string{fi.Key}, sites, viol)
+}
+
+// dominatingFactsOfValue: the branch facts that hold where v is computed (its own block), or
+// at b when v is not an instruction.
+func dominatingFactsOfValue(v ssa.Value, b *ssa.BasicBlock) []edgeFact {
+	if ins, ok := v.(ssa.Instruction); ok && ins.Block() != nil {
+		return dominatingFacts(ins.Block())
+	}
+	return dominatingFacts(b)
 }
